@@ -23,7 +23,7 @@ import tempfile
 import time
 from pathlib import Path
 
-VERIF = Path("/verif")
+VERIF = Path(os.environ.get("VERIF_ROOT") or Path(__file__).resolve().parents[1])
 REPO = Path(os.environ.get("VERIF_REPO", "/repo"))
 COQ = VERIF / "coq"
 EVID = VERIF / "evidence"
